@@ -50,6 +50,22 @@ CHECKS = {
         text="Symbolic verification: XY_emp_var=M2/n, >=0, XY_emp_dev^2=var, G??_emp_dev=sqrt(M2/n)*2/(fs*S2), None for the other analysis type, on a generic bin (unbounded symbolic values); all 18 backend functions executed on symbolic data show M2 equal to the population variance of the per-segment cross products (0 for one segment, never negative). Tests only check finiteness.",
         note="Reals for binary64; kernel shapes L<=3,K<=2 here (C01 covers more); navg=K wiring belongs to C05; Gaussian agreement clause is statistical and outside.",
         ref="DESIGN.md section 4 C11"),
+    "C12": dict(
+        text="For each (L,P) of a grid the exact double-valued Kaiser window that the analyzer hands to its kernels is captured from the real compute() and compute_single_bin() code paths; |W(omega)|^2 is then a univariate polynomial in cos(omega) with rational coefficients and the solver shows, cell by cell, that for EVERY omega beyond the main lobe it is at most 10^-((P-1)/10) |W(0)|^2; both code paths must hand over the same DFT-even window kaiser(L+1, alpha*pi)[:-1].",
+        note="Grid: L in {64,65,100,128} x P in {60,120,200} (quick), 7 lengths x 5 levels (thorough); other L, the image term of a real sinusoid and rounding in the recurrence are outside; np.kaiser's doubles are taken as exact rationals.",
+        ref="DESIGN.md section 4 C12"),
+    "C13": dict(
+        text="Symbolic verification of SpectrumAnalyzer.__init__ in fork mode on records whose samples carry a symbolic finiteness flag and value, for 10 memory layouts with numpy's copy/alias rule modelled (views share memory for real): the stored channels equal 'value if finite else 0', the caller's object is never written, the result is layout independent; no backend function writes into the record or window it is given; every division and square root behind the density/coherence/transfer-function attributes (and the error bars where coherence>0) is defined on a generic bin including all-zero statistics.",
+        note="Reals for binary64 (overflow outside); the copy rule of ascontiguousarray is cross-checked against real numpy on the same layouts on every run; N=3 samples per channel (quick).",
+        ref="DESIGN.md section 4 C13"),
+    "C14": dict(
+        text="Iteration-level race freedom of the 12 parallel kernels (every array access tagged with the iteration/thread that performs it, over all K iterations: no cell written by two iterations, none read by another; all K! execution orders give the serial result on symbolic data); order-independence of the 45 lazily computed attributes (each as first access followed by all others, both directions), stored arrays never written, also across plot(); plan/compute/compute_single_bin interleavings on one analyzer repeat identically, leave record and configuration unchanged and return the cached plan (also with force_target_nf).",
+        note="numba's parfor lowering and real thread counts are trusted (prange semantics); K=3 iterations, L=2 (quick); matplotlib replaced by inert stand-ins; the analyzer history uses recorder kernels (their purity is C13's read-only obligation).",
+        ref="DESIGN.md section 4 C14"),
+    "C15": dict(
+        text="Symbolic verification of the SISO, analytic (real sympy) and numeric MISO solvers on one generic bin whose joint spectral matrix is ANY Hermitian PSD matrix with PD input block (Cholesky parametrisation): the quantity under the square root is real and equals the Schur complement (last Cholesky pivot squared), hence 0<=residual^2<=S00, zero for an exact static combination, invariant under permutation and symbolic invertible re-mixing, analytic=numeric; q=1,2 fully symbolic, q=4 with a fixed rational input block (index bookkeeping), q=3 in the thorough tier.",
+        note="`ltf` is a stub returning spectra drawn from one joint matrix (estimation itself is C01/C09); np.linalg.solve by Cramer's rule, cond=1 (pinv branch outside); divisions encoded through one shared inverse symbol per divisor.",
+        ref="DESIGN.md section 4 C15"),
     "C16": dict(
         text="Symbolic verification: every tap returned by lagrange_taps equals the textbook Lagrange weight for a symbolic fraction d (orders 1..15 and the default 31; 55 in the thorough tier) and the taps sum to one; timeshift() is executed on symbolic records for ANY real shift within +-(n+3) samples (integer part enumerated by value forking inside the code, fraction symbolic): interior samples equal the interpolant at n+s, integer shifts displace with held end values, zero shift is the identity, polynomial records of degree <= order are reproduced, the time-varying path agrees with the constant path; df_timeshift applies exactly seconds*fs (symbolic) to the selected numeric columns only.",
         note="Reals for binary64 (int/int constants such as j/halfp are kept exact by interpreting lagrange_taps from its source); n<=7 (quick)/9, orders<=5/9 for timeshift; np.pad/correlate/einsum/sliding_window_view are numpy's own code on object arrays.",
@@ -58,6 +74,10 @@ CHECKS = {
         text="Symbolic verification with a symbolic random stream: the colouring cascade (real py_func) carries its state exactly over every split of <=6 samples into <=3 blocks incl. empty and single-sample blocks and equals the direct-form reference cascade; for white, red, alpha and pink generators any sequence of block requests equals one request of the total length for a twin with the same seed (with and without the settling call), same seed => same samples, different/no seed => different stream (witness), get_sample runs equal the stream prefix.",
         note="numpy's Generator being a stream and scipy.signal.lfilter's recurrence are stub contracts, validated on the real libraries at the boundary sizes on every run; for an empty input the lfilter stub returns an ARBITRARY final state (observed behaviour), which is what exposed F10.",
         ref="DESIGN.md section 4 C17"),
+    "C18": dict(
+        text="white noise: rms^2=psd*fs and draws N(0,rms); fftnoise/band_limited_noise executed on symbolic spectra, unit phasors, band edges and sample rate with the inverse FFT captured by contract (ifft and irfft): the returned real series has exactly the prescribed DFT (Hermitian, DC/Nyquist real, zero outside the band, unit magnitude inside); shaping filter: for each configuration of a grid the real constructor's coefficients are exact rationals and on every cell of [2 fmin_eff, fmax_eff/2] the solver shows the two-sided density within 1.25 dB of f^-alpha for EVERY frequency.",
+        note="Configurations off the grid and the two corner octaves are outside (a first-order corner is 3*alpha/2 dB off by construction); reading of 'about 1 dB' fixed in DESIGN.md before looking at what passes; cell width is part of the tolerance.",
+        ref="DESIGN.md section 4 C18"),
     "C19": dict(
         text="Symbolic verification: polynomial_detrend's residual is orthogonal to all monomials of degree<=p, a polynomial is mapped to zero, adding one changes nothing, detrending is idempotent, order 0 is mean removal, short inputs fall back (n<=6, orders<=3); integral_rms^2 equals the trapezoidal sum over the in-band grid points for symbolic grids (<=5 points), ASD values and band edges (every membership pattern by forking), power is additive at grid points, nested bands are monotone, degenerate bands give 0; get_rms and df_detrend wiring.",
         note="np.polyfit is replaced by its least-squares contract (normal equations); cumulative_trapezoid is scipy's own code on object arrays; the Parseval clause is statistical and outside.",
